@@ -1183,10 +1183,14 @@ def check_traj(kind, t, reply_toks, F, stats, crate_rule=False):
                 return None
             if not within(cur[i], E, abs(prev[i]), stats):
                 mid, rad = IV.mid_rad(E)
-                if cdv and not crate_rule and check_traj(kind, t, reply_toks, F, {}, True) is None:
-                    key = "reverse:f64-div-var-weight"   # explained entirely by the crate's `f64 / Var` weight
-                else:
-                    key = kind + "-recurrence"
+                key = kind + "-recurrence"
+                if cdv and not crate_rule:
+                    # attribute to the known finding only if the re-check with the crate's `f64 / Var` weight actually
+                    # RAN THROUGH this step and accepted it (an aborted re-check -- non-finite, unbounded, exception --
+                    # also returns None and must not earn the key)
+                    st2 = {}
+                    if check_traj(kind, t, reply_toks, F, st2, True) is None and st2.get("last_ok_step", 0) >= tt:
+                        key = "reverse:f64-div-var-weight"
                 return (key, "maxsteps=%d parameter %d: returned %r, published recurrence from the previous iterate gives %r (+-%g)"
                         % (tt, i, cur[i], mid, rad))
         # exact rule: the stop test (evaluated exactly) had not fired before this step, yet the run returned the previous
@@ -1201,6 +1205,7 @@ def check_traj(kind, t, reply_toks, F, stats, crate_rule=False):
                             "maxsteps=%d returns the iterate of maxsteps=%d (%r) although the stop test max rel_change < 2^-52 "
                             "had not fired and the published step moves parameter %d to [%r, %r]" % (tt, tt - 1, prev, i, lo, hi))
         stats["steps"] = stats.get("steps", 0) + 1
+        stats["last_ok_step"] = tt
         st = stopped_exact(cur, prev)
         if st:
             stopped = True
@@ -1504,38 +1509,56 @@ PROOF_MODULES = PROOF_MODULES + [m for m in ['Compute.Lemmas.Rounding8', 'Comput
 REQUIRED_THEOREMS = REQUIRED_THEOREMS + ["Cv.Rounding8.LMrun.lmBody_cases'", 'Cv.Rounding8.LMrun.pass_step', 'Cv.Rounding8.LMrun.pass_linear', 'Cv.Rounding8.LMrun.lmLoop_linear', 'Cv.Rounding8.LMrun.linInv_start', 'Cv.Rounding8.LMrun.stop_eps1', 'Cv.Rounding8.LMrun.stop_eps2', 'Cv.Rounding8.LMrun.errA_le_of_grad', 'Cv.Rounding8.LMrun.weighted_cs']
 NOT_PROVED = list(NOT_PROVED) + ["the model's LM loop itself is covered on linear models (Props/Rounding8, namespace LMrun): for an evaluator that is a linear model (LinModel) every pass of lmBody keeps the invariant mu <= max(mu_0, 2), a step is rejected only at a least-squares solution, and lmLoop returns a state with ||theta - theta*||^2_A <= q^fuel ||theta_0 - theta*||^2_A, q = Lam kappa/(1+Lam kappa), unless a stop test fired; stopped by eps1: sum |J^T(y - J theta)| <= eps1, stopped by eps2: (J^T r)_i^2 <= ||B_i||^2 (eps2(||theta|| + eps2))^2, both giving ||theta - theta*||^2_A <= kappa sum g_i^2/d_i; kappa (D <= kappa J^T J, i.e. full column rank) is a hypothesis; nonlinear models and floating point are oracle only"]
 
-# --- review repairs (C10 owner, after out/review/review-b.md): claim sentences rewritten to what is shown
-def _reword(x):
-    x = str(x)
-    if x.startswith("adam/sgd_follows_published_rule assume"):
-        return ("Adam / SGD with the TRUE gradient: adam/sgd_follows_published_rule_on_run (Props/C10Review) need the "
-                "objective inside its domain of differentiability (non-zero divisors, non-zero bases of negative powers) "
-                "only at the points where the run takes a gradient (iterates 0..k-1, look-ahead points for Nesterov); "
-                "that condition is a hypothesis, not derived from the start")
-    if x.startswith("LM descent is unconditional"):
-        return ("LM descent (rss(result) <= rss(start), covariance = rss/(n-p) * inverse of J^T J at the returned point) is "
-                "proved for the tape evaluator of the source under hypotheses ON THE SUBLEVEL SET rss(theta) <= rss(start) "
-                "only (Props/C10Review: lm_descends_on_sublevel needs tau > 0, 1 <= p < n and no vanishing Jacobian column "
-                "there; lm_descends_on_sublevel_of_nonsingular needs the damped normal matrix non-singular there); starts "
-                "where a column vanishes (e.g. p0*exp(p1*x) at p0 = 0, logistic at L = 0) are NOT covered by a theorem; "
-                "invOf is shown to be the inverse only for a non-singular J^T J (invOf_right_inverse)")
-    if x.startswith("LM convergence on models linear in the parameters IS proved"):
-        return ("LM convergence on models linear in the parameters: Props/Rounding7 (namespace LM) proves, over the reals with "
-                "an exact solver, the mathematics of one damped step (fixed points = least-squares solutions, strict decrease, "
-                "error recursion, geometric rate); it is tied to lmBody by step_of_model FOR AN IDEALISED EVALUATOR satisfying "
-                "EvalLaws (not the tape evaluator of the source: tapeEval_not_evalLaws); there is no theorem that lm / "
-                "LM::optimize reaches the least-squares solution -- that clause is searched by the oracle (exact solve, "
-                "contraction-rate bound), not proved")
-    if x.startswith("the model's LM loop itself is covered on linear models"):
-        return ("Props/Rounding8 (namespace LMrun): loop skeleton of lmLoop with an idealised evaluator satisfying EvalLaws "
-                "(LinModel.laws; NOT the tape evaluator): invariant mu <= max(mu_0, 2), contraction bound q^fuel unless a stop "
-                "test fired, bounds when eps1 / eps2 fired (the firing is a hypothesis); kappa (full column rank) is a "
-                "hypothesis; no end-to-end statement about lm")
-    return x
-
-
-NOT_PROVED = [_reword(x) for x in NOT_PROVED if not str(x).startswith("that tapeEval satisfies EvalLaws")]
-
-# --- review repairs in the Rounding layer (renamed stdmodel_* theorems, underflow-aware variants, genuine FlModel instance; wired by the lead)
-REQUIRED_THEOREMS = REQUIRED_THEOREMS + [t for t in ['Cv.Rounding8.LMrun.wf_belongs_body', 'Cv.Rounding8.LMrun.tapeEval_linModel', 'Cv.Rounding8.LMrun.Examples.prog01_lin'] if t not in REQUIRED_THEOREMS]
-NOT_PROVED = list(NOT_PROVED) + ['the LM loop theorems (Rounding8.LMrun) are stated for LinModel over EvalLawsOn ... WFSt; tapeEval_linModel shows that the tape evaluator of the source on an RPN program linear in the parameters (example p0 + p1 x) is such a model; mu, nu > 0 at the start are derived from tau > 0 and p > 0']
+# --- FINAL metadata (C10 owner; after review-b.md and review2-a.md).  The blocks above append to / filter the lists;
+# what counts is assigned here as literal lists.
+REQUIRED_THEOREMS = REQUIRED_THEOREMS + [x for x in ["Cv.C10R.lm_linear_contraction",
+                                                      "Cv.Rounding8.LMrun.tapeEval_linModel",
+                                                      "Cv.Rounding8.LMrun.lmLoop_linear",
+                                                      "Cv.Rounding8.LMrun.linInv_start"] if x not in REQUIRED_THEOREMS]
+NOT_PROVED = [
+    "floating-point rounding: every theorem is about the model over a field / ordered field / commutative ring / the "
+    "reals; the f64 behaviour is covered by the bit-exact correspondence and the oracle only",
+    "the tape chain-rule theorem (Props/C10Deep: the reverse sweep returns the Frechet derivative of the objective for "
+    "every node kind of the catalogue) excludes `f64 / Var` nodes: for those the dependency records the weight -1/x "
+    "instead of -c/x^2 (the open finding reverse:f64-div-var-weight, itself proved as tape_const_div_var_wrong)",
+    "Adam / SGD with the TRUE gradient (adam/sgd_follows_published_rule_on_run): the objective must be inside its domain "
+    "of differentiability (non-zero divisors, non-zero bases of negative powers) at the points where the run takes a "
+    "gradient (iterates 0..k-1, look-ahead points for Nesterov); this is a hypothesis, not derived from the start",
+    "LM descent (rss(result) <= rss(start); result = (theta, rss/(n-p) * invOf(J^T J)) at the returned point) for the "
+    "tape evaluator of the source is proved under hypotheses on the SUBLEVEL SET rss(theta) <= rss(start) only "
+    "(C10R.lm_descends_on_sublevel: tau > 0, 1 <= p < n, no vanishing Jacobian column there; "
+    "C10R.lm_descends_on_sublevel_of_nonsingular: damped normal matrix non-singular there); any start whose sublevel set "
+    "contains a parameter vector with a vanishing Jacobian column (p0*exp(p1*x) with p0 = 0 reachable, logistic with "
+    "L = 0 reachable) is NOT covered by a theorem; invOf is the inverse only for a non-singular J^T J "
+    "(C10R.invOf_right_inverse); the older C10D.lm_descends_unconditional / _of_nonsingular need their hypotheses at "
+    "EVERY parameter vector and state the covariance factor with n - p without requiring p < n (at n = p the factor is "
+    "rss/0: C10R.lmFinish_at_n_eq_p)",
+    "LM on models linear in the parameters IS proved for the tape evaluator of the source, in exact arithmetic over the "
+    "reals, as a CONDITIONAL CONTRACTION (C10R.lm_linear_contraction through Rounding8.LMrun.tapeEval_linModel, "
+    "linInv_start, lmLoop_linear): whatever lm returns after budget k belongs to a loop state in which either a stop "
+    "test fired or ||theta - theta*||^2_A <= (Lam kappa/(1 + Lam kappa))^k ||theta_0 - theta*||^2_A, Lam = max(mu_0, 2); "
+    "kappa (D <= kappa J^T J, i.e. full column rank) and the existence of the least-squares solution theta* are "
+    "hypotheses; when eps1 / eps2 fired the gradient is bounded (stop_eps1 / stop_eps2, the firing itself a hypothesis); "
+    "this is not 'reaches the least-squares solution' as an unconditional limit statement, and nothing is proved for "
+    "nonlinear models or for f64 -- there the clause is searched by the oracle (200-bit exact solve, contraction-rate "
+    "bound)",
+    "the *_idealEval theorems of Props/C10.lean / Lemmas/C10LMAlg.lean assume EvalLaws for ALL evaluator states, which "
+    "the tape evaluator does not satisfy (tapeEval_not_evalLaws); they are kept as the generic skeleton and are not "
+    "required",
+    "determinism of the real code (RefCell tape inside the optimizer object) and the behaviour of overflowed runs (a NaN "
+    "relative change is dropped by f64::max, so a run can stop with an inf/NaN coordinate) are observed by "
+    "correspondence, not proved",
+]
+ASSUMPTIONS = [
+    "budgets below 2^31 steps (t as i32 wraps beyond; hypothesis of adam_refines and adam_follows_published_rule_on_run)",
+    "default cargo features (no blas/lapack)",
+    "p < n is a hypothesis of the C10R LM theorems (lmG_descends_on_sublevel, lm_descends_on_sublevel, "
+    "lm_descends_on_sublevel_of_nonsingular); the C10D theorems lm_descends_unconditional / lm_descends_of_nonsingular do "
+    "not require it and at n = p speak about the junk factor rss/0 of a field (f64: inf/NaN, lmFinish_at_n_eq_p); "
+    "n < p panics; tau >= 0",
+    "stop_only_when_still is a theorem over ordered fields with abs and max as in StopLaws; in f64 a NaN relative change "
+    "is dropped by f64::max (witness in corpus(): SGD lr 1 on 1e200 p0^2 + (p1-1)^2 from [1e200, 1] returns [-inf, 1] "
+    "for every budget); overflowed runs are outside the quantifier",
+    "determinism: repeated requests and the routes used_clone / reuse (second call on a used object) must reply "
+    "bit-identically; the model is a function",
+]
